@@ -522,7 +522,7 @@ theorem isolation_touch_ann (env : Env) (c : AnnCfg) (body patch0 patch' value :
 
 /-- name-level composition: storing `k` does not change what a handler `k'` with disjoint
     *names* (none of them the marker) reads. The step from distinct *ids* to disjoint names is
-    `isolation_ids_short` / `isolation_ids_long` below (for `v1 = False`). -/
+    `isolation_ids_short` / `_long` / `_v1_hashed` in `Props/C16_Keys.lean`. -/
 theorem isolation_other_handler (env : Env) (c : AnnCfg) (body patch0 patch' : J) (k k' : Str) (r : Rec)
     (hw : wf patch0 = true) (hs : MarkStable patch0)
     (h : annStore env c body patch0 k r = .ok patch')
@@ -657,224 +657,7 @@ theorem names_stable (env : Env) (t : STree) (body patch0 ps pp : J) (k : Str) (
   exact ⟨by simp only [annNames, isDRS_merge (t1.keepsWf hw) hs1 body],
     by simp only [annNames, isDRS_merge (t2.keepsWf hw) hs2 body]⟩
 
-/-! ## Valid Kubernetes names -/
-
-/- The property says: "generated annotation names are ALWAYS valid Kubernetes names", i.e.
-     ∀ p k, validPrefix p → IdOk k → validQualified (v2Key p sfx k) ∧ validQualified (v1Key p sfx k).
-   That statement is FALSE of the code (`edge_witness`, `edge_witness_front`: F6; `v1_long_prefix_witness`:
-   F6c). What holds is the statement under the exact guards `EdgeAlnum (safeKey k)` (v2 and v1) and
-   "room for one character" (v1), hence `_partial`. `GoodSfx` is a fact about the real digest suffix
-   (7 characters `-xxxxxx`, last one of `AQgw`), checked by the oracle on every hashed name. -/
-
-/-- v2 names (the ones written and read first): under a valid prefix, for an id over the
-    property's alphabet whose safe form is alphanumeric at both ends, with a usable hash suffix
-    when the id is longer than 63: `prefix/name` with a valid name part of at most 63 characters,
-    and at most 253 in total when the prefix has at most 189. -/
-theorem valid_name_v2_partial (p : Str) (sfx : Str → Str) (k : Str) (hp : validPrefix p = true) (hk : IdOk k)
-    (he : EdgeAlnum (safeKey k)) (hs : k.length > 63 → GoodSfx (sfx k)) :
-    ∃ n, v2Key p sfx k = p ++ '/' :: n ∧ validNamePart n = true ∧ n.length ≤ 63 ∧
-      validQualified (v2Key p sfx k) = true ∧ (p.length ≤ 189 → (v2Key p sfx k).length ≤ 253) := by
-  have hn := validName_v2 sfx k hk he hs
-  have hpn := validPrefix_ne_nil hp
-  have e : v2Key p sfx k = p ++ '/' :: v2Name sfx k := by rw [v2Key_eq, pre_of_ne hpn]; simp
-  refine ⟨v2Name sfx k, e, hn, (validNamePart_length hn).2, ?_, ?_⟩
-  · rw [e]; exact validQualified_intro hp hn
-  · intro hl; rw [e]; simp; have := (validNamePart_length hn).2; omega
-
-/-- v1 names (written next to the v2 names while `v1=True`): additionally the prefix, the `/` and
-    the suffix must leave room for at least one character of the id (`|prefix| + 1 + |suffix| < 63`,
-    i.e. a prefix of at most 54 characters with the real 7-character suffix). -/
-theorem valid_name_v1_partial (p : Str) (sfx : Str → Str) (k : Str) (hp : validPrefix p = true) (hk : IdOk k)
-    (he : EdgeAlnum (safeKey k))
-    (hs : ¬ ((safeKey k).length : Int) ≤ 63 - ((pre p).length : Int) →
-      GoodSfx (sfx (safeKey k)) ∧ (pre p).length + (sfx (safeKey k)).length < 63) :
-    ∃ n, v1Key p sfx k = p ++ '/' :: n ∧ validNamePart n = true ∧ (v1Key p sfx k).length ≤ 63 ∧
-      validQualified (v1Key p sfx k) = true := by
-  obtain ⟨hn, hl⟩ := validName_v1 p sfx k hk he hs
-  have hpn := validPrefix_ne_nil hp
-  have e : v1Key p sfx k = p ++ '/' :: v1Name p sfx k := by rw [v1Key_eq, pre_of_ne hpn]; simp
-  refine ⟨v1Name p sfx k, e, hn, ?_, ?_⟩
-  · rw [e]; rw [pre_length hpn] at hl; simp; omega
-  · rw [e]; exact validQualified_intro hp hn
-
-/-- the marking keeps the name valid: a marked id ends in `S`, only its first character matters -/
-theorem valid_name_marked (k : Str) (hk : IdOk k) (he : headAlnum (safeKey k) = true) :
-    IdOk (markKey true k) ∧ EdgeAlnum (safeKey (markKey true k)) := by
-  refine ⟨⟨by simp only [markKey, if_true]; intro e; have := congrArg List.length e; simp [ofDRS] at this, ?_⟩, ?_, ?_⟩
-  · simp only [markKey, if_true, List.all_append, Bool.and_eq_true]
-    exact ⟨hk.2, by decide⟩
-  · simp only [markKey, if_true, safeKey, List.map_append]
-    exact headAlnum_append he _
-  · simp only [markKey, if_true, safeKey, List.map_append]
-    rw [lastAlnum_append _ (by decide)]; decide
-
-/-! ## Distinct names -/
-
-/- The property says: "names are distinct for long ids that share a prefix", i.e.
-     ∀ k ≠ k' (both longer than 63), v2Key p sfx k ≠ v2Key p sfx k'.
-   FALSE of the code for the real 32-bit digest (`collision_witness` + the birthday search replayed on
-   every run: F6b), and for ids in general (`safe_form_witness` F6d, `forged_witness` F6e). The
-   theorems below are what is left: the cut-and-append never loses a difference the digest (resp. the
-   safe form) still shows — they do NOT establish the clause, hence `_partial`. -/
-
-/-- two ids longer than 63 characters (sharing any prefix) whose hash suffixes differ (and have the
-    same length, as the real ones do) get different v2 names -/
-theorem distinct_partial (p : Str) (sfx : Str → Str) (k k' : Str) (hk : k.length > 63) (hk' : k'.length > 63)
-    (hl : (sfx k).length = (sfx k').length) (hl63 : (sfx k).length ≤ 63) (hne : sfx k ≠ sfx k') :
-    v2Key p sfx k ≠ v2Key p sfx k' := by
-  intro e
-  rw [v2Key_eq, v2Key_eq, v2Name_long hk, v2Name_long hk'] at e
-  have e2 := List.append_cancel_left e
-  have := List.append_inj e2 (by
-    rw [v2Name_long_length hk hl63, v2Name_long_length hk' (by omega), hl])
-  exact hne this.2
-
-/-- ids of at most 63 characters with different safe forms get different v2 names -/
-theorem distinct_short_partial (p : Str) (sfx : Str → Str) (k k' : Str) (hk : k.length ≤ 63) (hk' : k'.length ≤ 63)
-    (hne : safeKey k ≠ safeKey k') : v2Key p sfx k ≠ v2Key p sfx k' := by
-  intro e
-  rw [v2Key_eq, v2Key_eq, v2Name_short hk, v2Name_short hk'] at e
-  exact hne (List.append_cancel_left e)
-
-/-! ## Id-level isolation (assembled from the above) -/
-
-/-- **Id-level isolation, `v1 = False`, ids of at most 63 characters** (after marking): two
-    handlers whose *safe forms* differ do not disturb each other — a store or a purge of `k` leaves
-    what `k'` reads unchanged (`k'` must not spell the `kopf-managed` marker).
-    With equal safe forms this is false (`safe_form_witness`, F6d); for `v1 = True` no id-level
-    statement of this kind holds for every prefix (`v1_negative_cut_witness`, F6f). -/
-theorem isolation_ids_short (env : Env) (c : AnnCfg) (hv1 : c.v1 = false) (hp : c.pfx ≠ [])
-    (body patch0 ps pp : J) (k k' : Str) (r : Rec) (hw : wf patch0 = true) (hs : MarkStable patch0)
-    (hk : (markKey (isDRS body) k).length ≤ 63) (hk' : (markKey (isDRS body) k').length ≤ 63)
-    (hne : safeKey k ≠ safeKey k')
-    (hm : safeKey (markKey (isDRS body) k') ≠ "kopf-managed".toList)
-    (hstore : annStore env c body patch0 k r = .ok ps) (hpurge : annPurge env c body patch0 k = .ok pp) :
-    annFetch env c (mergePatch body ps) k' = annFetch env c (mergePatch body patch0) k' ∧
-    annFetch env c (mergePatch body pp) k' = annFetch env c (mergePatch body patch0) k' := by
-  have hn : ∀ x, annNames env c.pfx c.v1 body x = [v2Key c.pfx env.sfx (markKey (isDRS body) x)] := by
-    intro x; simp [annNames, makeKeys, hv1]
-  have hd : v2Key c.pfx env.sfx (markKey (isDRS body) k') ≠ v2Key c.pfx env.sfx (markKey (isDRS body) k) :=
-    fun e => distinct_short_partial c.pfx env.sfx _ _ hk hk' (safeKey_markKey_ne hne) e.symm
-  refine ⟨isolation_other_handler env c body patch0 ps k k' r hw hs hstore ?_ ?_,
-    isolation_other_handler_purge env c body patch0 pp k k' hw hs hpurge ?_⟩
-  · intro n hn1 n' hn2; rw [hn] at hn1 hn2; simp at hn1 hn2; subst hn1; subst hn2; exact hd
-  · intro n' hn2; rw [hn] at hn2; simp at hn2; subst hn2
-    exact v2Key_ne_marker_short hp env.sfx hk' hm
-  · intro n hn1 n' hn2; rw [hn] at hn1 hn2; simp at hn1 hn2; subst hn1; subst hn2; exact hd
-
-/-- **Id-level isolation, `v1 = False`, ids longer than 63 characters** (sharing any prefix), as
-    long as their digests differ (`collision_witness`, F6b, is the other case). -/
-theorem isolation_ids_long (env : Env) (c : AnnCfg) (hv1 : c.v1 = false) (hp : c.pfx ≠ [])
-    (body patch0 ps pp : J) (k k' : Str) (r : Rec) (hw : wf patch0 = true) (hs : MarkStable patch0)
-    (hk : (markKey (isDRS body) k).length > 63) (hk' : (markKey (isDRS body) k').length > 63)
-    (hl : (env.sfx (markKey (isDRS body) k)).length = (env.sfx (markKey (isDRS body) k')).length)
-    (hl63 : (env.sfx (markKey (isDRS body) k)).length ≤ 63)
-    (hne : env.sfx (markKey (isDRS body) k) ≠ env.sfx (markKey (isDRS body) k'))
-    (hstore : annStore env c body patch0 k r = .ok ps) (hpurge : annPurge env c body patch0 k = .ok pp) :
-    annFetch env c (mergePatch body ps) k' = annFetch env c (mergePatch body patch0) k' ∧
-    annFetch env c (mergePatch body pp) k' = annFetch env c (mergePatch body patch0) k' := by
-  have hn : ∀ x, annNames env c.pfx c.v1 body x = [v2Key c.pfx env.sfx (markKey (isDRS body) x)] := by
-    intro x; simp [annNames, makeKeys, hv1]
-  have hd : v2Key c.pfx env.sfx (markKey (isDRS body) k') ≠ v2Key c.pfx env.sfx (markKey (isDRS body) k) :=
-    fun e => distinct_partial c.pfx env.sfx _ _ hk hk' hl hl63 hne e.symm
-  refine ⟨isolation_other_handler env c body patch0 ps k k' r hw hs hstore ?_ ?_,
-    isolation_other_handler_purge env c body patch0 pp k k' hw hs hpurge ?_⟩
-  · intro n hn1 n' hn2; rw [hn] at hn1 hn2; simp at hn1 hn2; subst hn1; subst hn2; exact hd
-  · intro n' hn2; rw [hn] at hn2; simp at hn2; subst hn2
-    exact v2Key_ne_marker_long hp env.sfx hk' (by omega)
-  · intro n hn1 n' hn2; rw [hn] at hn1 hn2; simp at hn1 hn2; subst hn1; subst hn2; exact hd
-
-/-! ## Each hypothesis is necessary: witnesses (the open findings F6, F6b–F6e) -/
-
-def kz : Str := "kopf.zalando.org".toList
-def constSfx (s : String) : Str → Str := fun _ => s.toList
-def xs (n : Nat) : Str := List.replicate n 'x'
-/-- a 55-character and a 60-character valid DNS prefix -/
-def p55 : Str := "operators.platform-engineering.example-company.internal".toList
-def p60 : Str := "operators.platform-engineering.emea.example-company.internal".toList
-
-/-- **F6** `EdgeAlnum` is necessary: the id `fn/` (in the alphabet, any hash) gives
-    `kopf.zalando.org/fn.`, which is not a valid annotation key. -/
-theorem edge_witness (sfx : Str → Str) :
-    validPrefix kz = true ∧ IdOk "fn/".toList ∧ ¬ EdgeAlnum (safeKey "fn/".toList) ∧
-    v2Key kz sfx "fn/".toList = "kopf.zalando.org/fn.".toList ∧
-    validQualified (v2Key kz sfx "fn/".toList) = false := by
-  have e : v2Key kz sfx "fn/".toList = "kopf.zalando.org/fn.".toList := by
-    simp [v2Key]; decide
-  refine ⟨by decide, by decide, by decide, e, ?_⟩
-  rw [e]; decide
-
-/-- … and at the front (`<locals>.fn` → `_locals_.fn`), also on a marked (ReplicaSet) key. -/
-theorem edge_witness_front (sfx : Str → Str) :
-    IdOk "<locals>.fn".toList ∧
-    validQualified (v2Key kz sfx (markKey true "<locals>.fn".toList)) = false := by
-  have e : v2Key kz sfx (markKey true "<locals>.fn".toList) = "kopf.zalando.org/_locals_.fn-ofDRS".toList := by
-    simp [v2Key, markKey, ofDRS]; decide
-  refine ⟨by decide, ?_⟩
-  rw [e]; decide
-
-/-- `GoodSfx` is necessary: with a suffix ending in `.` a long, otherwise fine id gets an invalid name. -/
-theorem sfx_witness :
-    IdOk (xs 64) ∧ EdgeAlnum (safeKey (xs 64)) ∧ ¬ GoodSfx (constSfx "-ab." (xs 64)) ∧
-    validQualified (v2Key kz (constSfx "-ab.") (xs 64)) = false := by
-  decide
-
-/-- **F6c** the room hypothesis of `valid_name_v1_partial` is necessary: with a valid 55-character prefix
-    the v1 name of a hashed id is the bare suffix (starts with `-`); with a 60-character prefix
-    the cut is negative — a slice from the end — and the v1 name part is longer than 63. -/
-theorem v1_long_prefix_witness :
-    validPrefix p55 = true ∧ IdOk "create_fn/spec.field".toList ∧
-    EdgeAlnum (safeKey "create_fn/spec.field".toList) ∧ GoodSfx (constSfx "-AAAAAQ" []) ∧
-    v1Key p55 (constSfx "-AAAAAQ") "create_fn/spec.field".toList = p55 ++ "/-AAAAAQ".toList ∧
-    validQualified (v1Key p55 (constSfx "-AAAAAQ") "create_fn/spec.field".toList) = false ∧
-    validPrefix p60 = true ∧ (v1Name p60 (constSfx "-AAAAAQ") (xs 100)).length = 102 := by
-  decide
-
-set_option maxRecDepth 8192 in
-/-- **F6f** the same negative cut breaks isolation: with a 63-character prefix the v1 name of the
-    64-character id `a/xx…` is the v2 name of the distinct id `a.xx…` (its safe form). -/
-theorem v1_negative_cut_witness :
-    validPrefix (List.replicate 63 'a') = true ∧ "a/".toList ++ xs 62 ≠ safeKey ("a/".toList ++ xs 62) ∧
-    v1Key (List.replicate 63 'a') (constSfx "-AAAAAQ") ("a/".toList ++ xs 62)
-      = v2Key (List.replicate 63 'a') (constSfx "-AAAAAQ") (safeKey ("a/".toList ++ xs 62)) := by
-  decide
-
-/-- **F6b** `sfx k ≠ sfx k'` in `distinct_partial` is necessary: whenever the suffixes of two long ids
-    collide and the ids agree on the characters kept, the v2 names coincide … -/
-theorem collision_witness (p : Str) (sfx : Str → Str) (k k' : Str) (hk : k.length > 63) (hk' : k'.length > 63)
-    (hs : sfx k = sfx k')
-    (ht : (safeKey k).take (63 - (sfx k).length) = (safeKey k').take (63 - (sfx k).length)) :
-    v2Key p sfx k = v2Key p sfx k' := by
-  rw [v2Key_eq, v2Key_eq, v2Name_long hk, v2Name_long hk', ← hs, ht]
-
-/-- … and such pairs exist for any hash whose range is smaller than its domain (here: constant). -/
-example : xs 64 ≠ xs 65 ∧ v2Key kz (constSfx "-AAAAAQ") (xs 64) = v2Key kz (constSfx "-AAAAAQ") (xs 65) := by
-  decide
-
-/-- **F6d** `safeKey k ≠ safeKey k'` in `distinct_short_partial` is necessary: ids with the same safe form
-    (at most 63 characters) get the same names under every configuration and hash … -/
-theorem safe_form_witness (p : Str) (v1 : Bool) (sfx : Str → Str) (k k' : Str)
-    (hs : safeKey k = safeKey k') (hk : k.length ≤ 63) :
-    makeKeys p v1 sfx k = makeKeys p v1 sfx k' := by
-  have hk' : k'.length ≤ 63 := by
-    rw [← safeKey_length k', ← hs, safeKey_length]; exact hk
-  have e2 : v2Key p sfx k = v2Key p sfx k' := by
-    rw [v2Key_eq, v2Key_eq, v2Name_short hk, v2Name_short hk', hs]
-  have e1 : v1Key p sfx k = v1Key p sfx k' := by
-    simp only [v1Key, hs]
-  simp only [makeKeys, e1, e2]
-
-/-- … e.g. the field handler `fn/spec.field` and the sub-handler path `fn/spec/field`. -/
-example : "fn/spec.field".toList ≠ "fn/spec/field".toList ∧
-    safeKey "fn/spec.field".toList = safeKey "fn/spec/field".toList := by decide
-
-/-- **F6e** "both ids longer than 63" in `distinct_partial` is necessary: the 63-character id that spells
-    the cut-and-hashed name of a longer id gets the same v2 name without any hash collision. -/
-theorem forged_witness :
-    xs 56 ++ "-AAAAAQ".toList ≠ xs 64 ∧ (xs 56 ++ "-AAAAAQ".toList).length = 63 ∧
-    IdOk (xs 56 ++ "-AAAAAQ".toList) ∧
-    v2Key kz (constSfx "-AAAAAQ") (xs 56 ++ "-AAAAAQ".toList) = v2Key kz (constSfx "-AAAAAQ") (xs 64) := by
-  decide
+/-! ## The covering hypothesis of `roundtrip_status` -/
 
 /-- the covering hypothesis of `roundtrip_status` is necessary: a record written over an older
     record with other keys reads back merged (RFC 7386), not as stored. -/
@@ -887,6 +670,16 @@ theorem status_cover_witness :
        | _ => false) = true := by
   intro c body
   exact ⟨obj [("status", obj [("kopf", obj [("progress", obj [("h", obj [("a", num 1)])])])])], by rfl, by decide⟩
+
+/-! ## Example data (shared with `Props/C16_Keys.lean`) -/
+
+def kz : Str := "kopf.zalando.org".toList
+def constSfx (s : String) : Str → Str := fun _ => s.toList
+def xs (n : Nat) : Str := List.replicate n 'x'
+/-- a 55-character and a 60-character valid DNS prefix -/
+def p55 : Str := "operators.platform-engineering.example-company.internal".toList
+def p60 : Str := "operators.platform-engineering.emea.example-company.internal".toList
+
 
 /-! ## Non-vacuity: the hypotheses of the theorems are met by concrete, non-trivial instances -/
 
@@ -917,17 +710,6 @@ example : (match annStore env0 c0 body0 (obj []) k0 r0 with | .ok _ => true | _ 
 example : (match annPurge env0 c0 body0 (obj []) k0 with | .ok _ => true | _ => false) = true := by decide
 example : FlatRec r0 := ⟨by decide, by decide⟩
 example : FieldApart ["status", "kopf", "progress"] := ⟨"status", _, rfl, by decide, by decide⟩
-example : validPrefix kz = true ∧ validPrefix c0.pfx = true := by decide
-example : IdOk k0 ∧ EdgeAlnum (safeKey k0) ∧ GoodSfx (env0.sfx k0) := by decide
-example : IdOk "Outer.<locals>.fn/sub/spec.field".toList ∧
-    EdgeAlnum (safeKey "Outer.<locals>.fn/sub/spec.field".toList) := by decide
-/-- `valid_name_v1_partial`'s room hypothesis holds for the default prefix and the real suffix length -/
-example : (pre kz).length + (env0.sfx (safeKey k0)).length < 63 := by decide
-/-- `distinct_partial`: two long ids sharing a 64-character prefix, different (equal-length) suffixes -/
-example : let sfx : Str → Str := fun k => if k.length = 64 then "-AAAAAQ".toList else "-BBBBBQ".toList
-    (xs 64).length > 63 ∧ (xs 65).length > 63 ∧ (sfx (xs 64)).length = (sfx (xs 65)).length ∧ sfx (xs 64) ≠ sfx (xs 65) := by
-  decide
-
 /-! Multi storages: a nested tree `Multi[Multi[Annotations], Status, Multi[]]` on the ReplicaSet -/
 
 def sc0 : StatusCfg := ⟨["status", "kopf", "progress"], ["status", "kopf", "dummy"], false⟩
@@ -958,13 +740,6 @@ example : ∀ p', STree.purge env0 body0 k0 (obj []) t0 = .ok p' →
         have e2 : sc' = sc0 := by simpa [show t0.flatten = [.ann c0, .status sc0] from rfl] using hsc'
         subst e1; subst e2; exact Or.inl rfl) h
 
-/-- `isolation_ids_short`: `v1 = False`, a field handler and a sub-handler with different safe forms -/
-def c1 : AnnCfg := ⟨kz, false, false, "touch-dummy".toList⟩
-example : (markKey (isDRS body0) "fn/spec.a".toList).length ≤ 63 ∧ (markKey (isDRS body0) "fn/sub_b".toList).length ≤ 63 ∧
-    safeKey "fn/spec.a".toList ≠ safeKey "fn/sub_b".toList ∧
-    safeKey (markKey (isDRS body0) "fn/sub_b".toList) ≠ "kopf-managed".toList ∧ c1.pfx ≠ [] := by decide
-example : (match annStore env0 c1 body0 (obj []) "fn/spec.a".toList r0, annPurge env0 c1 body0 (obj []) "fn/spec.a".toList with
-    | .ok _, .ok _ => true | _, _ => false) = true := by decide
 /-- `foreign_annotation_untouched`: the user annotation `note` is not `<prefix>/…` -/
 example : ∀ x, "note".toList ≠ c0.pfx ++ '/' :: x := by
   intro x e
